@@ -586,6 +586,9 @@ class Wrapc(util.WrapperMixin):
                 ),
                 "delete cxx_ptr;",
             ]
+            if node.cpp_if:
+                # The class only exists when the condition holds.
+                del_lines = ["#" + node.cpp_if] + del_lines + ["#endif"]
             ntypemap.idtor = self.add_capsule_code(
                 cxx_type, ntypemap, del_lines
             )
